@@ -189,6 +189,7 @@ CASES = [
     # (b1617, round 9) a newtype read as its component: `&mut self` writes `self.0`, `Type::f()` of a tuple struct
     ("tsmut", "pub struct M(Vec<u32>);\nimpl M { pub fn add(&mut self, x: u32) { self.0.push(x); } }", ("expect", ["(self : List Nat)", "(self ++ [x])"]), ("M", "add")),
     ("tsassoc", "pub struct M(Vec<u32>);\nimpl M { pub fn new() -> Self { M(vec![]) } }\nfn f() -> M { M::new() }", ("expect", ["(M.new)"])),
+    ("smapclear", "pub struct T { pub m: BTreeMap<String, u32> }\nimpl T { pub fn wipe(&mut self) { self.m.clear(); } }", ("expect", ["{ self with m := [] }"]), ("T", "wipe")),
     ("r-orbind", "fn f(e: E) -> u32 { match e { E::A(n) | E::A(n) => n, _ => 0 } }", ("refuse", "or-pattern that binds")),
     # (b1012, round 9) `x.into()` between two structs of the unit = the one `impl From<_> for T`; no such impl / no wanted type: refused
     ("intofrom", "pub struct T { pub a: u64 }\nimpl From<S> for T { fn from(s: S) -> Self { T { a: s.a } } }\nfn f(s: S) -> T { s.into() }",
